@@ -278,7 +278,7 @@ pub fn record(a: &Args) {
     macro_rules! run { ($t:ty, $big:expr) => {{ types.push(<$t as Scalar>::name()); for h in 0..nh { history::<$t>(a, h, &mut t, len, $big, &mut st); } }} }
     run!(i32, 30); run!(i64, 62); run!(i128, 126); run!(BigInt, big);
     run!(Ratio<i64>, 60); run!(Ratio<i128>, 120); run!(Ratio<BigInt>, big / 2);
-    run!(FF2, 30); run!(FF<3>, 30); run!(FF<5>, 30); run!(FF<7>, 30); run!(FF<46337>, 30); run!(FF<65537>, 30); run!(FF<1000003>, 30);
+    run!(FF2, 30); run!(FF<3>, 30); run!(FF<5>, 30); run!(FF<7>, 30); run!(FF<46337>, 30); run!(FF<65537>, 30); run!(FF<1000003>, 30); run!(FF<1073741827>, 31); run!(FF<2147483647>, 31);
     run!(GaussInt<i64>, 28); run!(GaussInt<BigInt>, big / 2); run!(EisenInt<i64>, 28); run!(EisenInt<BigInt>, big / 2);
     let n = t.finish();
     summary("record", json!({"events": n, "histories": types.len() as u64 * nh, "types": types, "panics": st.panics, "max_bits_seen": st.maxbits, "eq_true": st.eq_true, "ops_skipped_outside_machine_envelope": st.skipped_unsafe}));
